@@ -352,8 +352,13 @@ func genPCfgOpt(t *rapid.T, kind string, maxBuf int, eqShrink bool) PCfg {
 				c.MaxMatchLen = mm
 			}
 		}
-		if rapid.Bool().Draw(t, "costDef") {
+		switch weighted(t, "costKind", 9, 9, 2) {
+		case 1:
 			c.Cost = "XZCost"
+		case 2:
+			// near misses of the one known cost function: whatever
+			// NewParser accepts has to work
+			c.Cost = rapid.SampledFrom([]string{"xzcost", "XZCOST", "XzCost", "XZCost ", " XZCost", "XZ", "xz", "XZCost\x00"}).Draw(t, "costNear")
 		}
 	}
 	return c
